@@ -1152,6 +1152,61 @@ static void run_c08(const Case &c, XorShift &x) {
 }
 
 
+// C06, consecutive sizes: packed arrays whose bit count is an exact multiple of the word size (or ends one
+// entry short of it) only occur for some dictionary sizes.  One case = one string family of 3 000-5 200 strings
+// (more than 64 KB of text, so offsets need more than 16 bits); the dictionary is built, saved and loaded
+// for 72 consecutive sizes N..N+71 (40 for XBW / FMINDEX; every residue of the entry counts modulo 32 and 64 for the
+// per-string / per-bucket arrays, a spread of residues for the grammar arrays), and members near the end and
+// the beginning plus a few random ones are located and extracted on the loaded object.
+static void run_c06_nsweep(const Case &c0, XorShift &x) {
+  attr_override = "C06";
+  const size_t SPAN = (c0.p.kind == K_XBW || c0.p.kind == K_FMINDEX) ? 40 : 72;   // the two slow builders get fewer sizes
+  if (c0.S.size() < SPAN + 200) { attr_override.clear(); cur->conclusive = false; cur->inconclusive_reason = "nsweep-set-too-small"; return; }
+  size_t N = std::min<size_t>(c0.S.size(), 5200) - SPAN;
+  size_t done = 0;
+  for (size_t k = 0; k < SPAN && !cur->tainted; k++) {
+    Case c = c0;
+    c.S.assign(c0.S.begin(), c0.S.begin() + N + k);
+    c.gi.total = 0;
+    for (auto &t : c.S) c.gi.total += t.size() + 1;
+    size_t n = c.S.size();
+    // features that depend on n
+    cur->feats.erase("n_mult_bucket"); cur->feats.erase("last_bucket_single");
+    if (has_bucket(c.p.kind)) { uint32_t b = std::max<uint32_t>(2, c.p.bucket); if (n % b == 0) cur->feats.insert("n_mult_bucket"); if (n % b == 1) cur->feats.insert("last_bucket_single"); }
+    cur->state = "fresh";
+    StringDictionary *d = do_build(c);
+    if (!d) continue;
+    std::string img;
+    bool sv = do_save(d, img);
+    do_destroy(d);
+    if (!sv) continue;
+    cur->state = "own";
+    StringDictionary *l = do_load(c, img, true);
+    if (!l) continue;
+    Obj ol{l, c.p.kind, n};
+    std::vector<size_t> idx;
+    for (size_t q = 0; q < 6 && q < n; q++) { idx.push_back(n - 1 - q); idx.push_back(q); }
+    for (int q = 0; q < 6; q++) idx.push_back(x.below((uint32_t)n));
+    for (size_t i : idx) {
+      if (obj_dead) break;
+      if (skip("locate_member") || skip("extract")) break;
+      unsigned long id = op_locate(ol, c.S[i], "locate_member");
+      if (obj_dead) break;
+      if (id < 1 || id > n) { ev("C06", "loaded-member-not-found", "n=" + std::to_string(n) + ": locate of member #" + std::to_string(i + 1) + " on the loaded object gives " + std::to_string(id)); break; }
+      ExtR e = op_extract(ol, id, "extract");
+      if (obj_dead) break;
+      if (e.null || e.str != c.S[i]) { ev("C06", "loaded-roundtrip-mismatch", "n=" + std::to_string(n) + ": extract(locate(member #" + std::to_string(i + 1) + ")=" + std::to_string(id) + ") on the loaded object is not that member"); break; }
+      if (is_ordered(c.p.kind) && id != i + 1) { ev("C06", "loaded-id-order", "n=" + std::to_string(n) + ": member #" + std::to_string(i + 1) + " has ID " + std::to_string(id) + " on the loaded object"); break; }
+    }
+    do_destroy(l);
+    done++;
+    if (cur->reportable("C06")) break;
+  }
+  cur->counters["nsweep_sizes"] += (int)done;
+  if (done >= SPAN / 2) cur->labels.insert("c06_nsweep");
+  attr_override.clear();
+}
+
 // C08, uninitialised memory in the image: the plain (non-sanitizer) build flips glibc's M_PERTURB byte
 // between two builds of the same case; fresh heap memory is then filled with different garbage, so any
 // image byte that was never written differs.  (tcache is switched off by the driver: GLIBC_TUNABLES.)
@@ -1522,12 +1577,14 @@ static void decode_case(Src &s, Case &c) {
   if (cfg.thorough && nclass == 5 && s.below(4) == 0) nclass = 6;
   if (cfg.param == "scale") nclass = 7;
   if (cfg.param == "hugelcp") nclass = 8;
+  if (cfg.param == "nsweep") nclass = 6;
   c.p.kind = kind;
   bool table_kind = kind == K_HHTFC || kind == K_HTFC;  // F06/F07: explored where they work
   c.S = gen_strings(s, nclass, cfg.thorough, c.gi, table_kind);
   bool clamp = cfg.prop == "C12" || cfg.prop == "C07";
   bool memalloc = cfg.prop == "C07";
   gen_params(s, c.p, c.S.size(), c.gi.total, clamp, memalloc);
+  if (cfg.param == "nsweep") { c.p.memalloc = 32768; if (c.p.bucket < 2 || s.byte() % 2) c.p.bucket = 2 + s.byte() % 7; if (c.p.threads > 4) c.p.threads = 4; }
   if (cfg.param == "scale") {
     // the default reservation unit, and mostly the smallest bucket size (more than 2^16 buckets)
     c.p.memalloc = 32768;
@@ -1655,6 +1712,9 @@ int run_case(const uint8_t *data, size_t n, CaseCtx &ctx) {
     size_t longest = 0;
     for (size_t i = 0; i < nn; i++) if (c.S[i].size() > c.S[longest].size()) longest = i;
     ctx.nontrivial = nn >= 2 && longest != 0;
+  } else if (P == "C06" && cfg.param == "nsweep") {
+    run_c06_nsweep(c, x);
+    ctx.nontrivial = ctx.labels.count("c06_nsweep");
   } else if (P == "C06") {
     run_c06(c, x);
     ctx.nontrivial = nn >= 2 && ctx.labels.count("c06_stream_of_two");
